@@ -111,7 +111,8 @@ func fnHIncrByFloat(ctx *cmdContext, args map[string]any) (output respValue, err
 	fieldName := args["field"].(string)
 	delta := args["increment"].(float64)
 
-	result, valid := ctx.dsc.fieldAddFloat(keyName, fieldName, delta)
+	deltaText, _ := ctx.rawArgs[3].toString()
+	result, valid := ctx.dsc.fieldAddFloat(keyName, fieldName, delta, deltaText)
 	if valid == VALUE_WRONG_TYPE {
 		output.data = wrongTypeError
 	} else if valid == VALUE_WRONG_FORMAT {
